@@ -4,7 +4,7 @@
     (U) the call-log correspondence of the traversal, (N) the interval correspondence of the leaves and
     (F) the tables of Gen/C09/Tables.v regenerated on every run. *)
 From Coq Require Import Reals Lra List Bool Arith String.
-From CB Require Import Base.Vec3 Model.C09_Transform Proofs.C09_Leaves Proofs.C09_Commute Proofs.C09_Equivariance Proofs.C09_Traverse Proofs.C09_Main.
+From CB Require Import Base.Vec3 Model.C09_Transform Proofs.C09_Leaves Proofs.C09_Commute Proofs.C09_Equivariance Proofs.C09_Traverse Proofs.C09_Heap Proofs.C09_ArcLength Proofs.C09_Main Proofs.C09_Output.
 From CB Require Import Gen.C09.Tables.
 Import ListNotations.
 Open Scope R_scope.
@@ -92,6 +92,31 @@ Definition C09_list_on_angle_stmt : Prop :=
 Theorem C09_list_on_angle_refuted : ~ C09_list_on_angle_stmt.
 Proof. exact M09_list_on_angle_refuted. Qed.
 
+(** ** 4c. commutation at heap level for exactly the traversals that the correspondence ties to the code:
+    after entity.translate/rotate/scale/mirror(...) on an alias-free entity every position leaf and every Angle
+    axis holds its image; a point array holds its image, possibly with the rows in reverse order (side edge of an
+    operation that a reflection turned over, see C09_reverse); nothing else changes.  The same for
+    entity.transform([...]) unless the entity is a bare Angle. *)
+Definition C09_method_commute_stmt : Prop :=
+  forall t n h, valid t -> alias_free n = true ->
+    (forall r i, In (r, i) (leaves n) -> role_ok r (h i)) ->
+    let h' := run_visits t (method_visits (kind_of t) n) h in
+    (forall r i, In (r, i) (leaves n) -> h' i = image_cell t r (h i) \/ h' i = rev_cell (image_cell t r (h i))) /\
+    (forall r i, In (r, i) (leaves n) -> r <> RArr -> h' i = image_cell t r (h i)) /\
+    (forall j, ~ In j (map snd (leaves n)) -> h' j = h j).
+Theorem C09_method_commute : C09_method_commute_stmt.
+Proof. exact method_commute. Qed.
+
+Definition C09_list_commute_stmt : Prop :=
+  forall t n h, valid t -> alias_free n = true -> not_angle n ->
+    (forall r i, In (r, i) (leaves n) -> role_ok r (h i)) ->
+    let h' := run_visits t (list_visits (kind_of t) n) h in
+    (forall r i, In (r, i) (leaves n) -> h' i = image_cell t r (h i) \/ h' i = rev_cell (image_cell t r (h i))) /\
+    (forall r i, In (r, i) (leaves n) -> r <> RArr -> h' i = image_cell t r (h i)) /\
+    (forall j, ~ In j (map snd (leaves n)) -> h' j = h j).
+Theorem C09_list_commute : C09_list_commute_stmt.
+Proof. exact list_commute. Qed.
+
 (** ** 5. any number of transformations (in particular lists of up to three) compose *)
 Definition C09_compose_stmt : Prop :=
   forall ts, Forall valid ts -> forall ls h,
@@ -101,9 +126,10 @@ Definition C09_compose_stmt : Prop :=
 Theorem C09_compose : C09_compose_stmt.
 Proof. exact M09_compose. Qed.
 
-(** ** 6. output geometry: what is computed from transformed leaves is the transformed output.
-    Full statement: straight and polyline/spline lengths scale by |ratio|, the third point of `origin` and
-    `angle` arcs is the image of the third point, and the three-point arc length scales by |ratio|. *)
+(** ** 6. output geometry: what is computed from transformed leaves is the transformed output:
+    straight and polyline/spline lengths scale by |ratio|, the third point of `origin` and `angle` arcs is the
+    image of the third point (the axis taken as a direction), and the length of a (non-degenerate) three-point
+    arc scales by |ratio|. *)
 Definition C09_output_stmt : Prop :=
   forall t, valid t ->
     let A := image_pos t in let D := image_axis t in let k := ratio_of t in
@@ -111,18 +137,10 @@ Definition C09_output_stmt : Prop :=
     (forall l, polyline_length (map A l) = Rabs k * polyline_length l) /\
     (forall p1 p2 c, arc_from_origin (A p1) (A p2) (A c) = A (arc_from_origin p1 p2 c)) /\
     (forall p1 p2 t2 a, arc_from_theta (A p1) (A p2) t2 (D a) = A (arc_from_theta p1 p2 t2 a)) /\
-    (forall ps pb pe, arc_length_3point (A ps) (A pb) (A pe) = Rabs k * arc_length_3point ps pb pe).
-(** proved part: everything but the last conjunct (arc length through acos), which is validated by the
-    oracle on every arc edge of the correspondence cases *)
-Definition C09_output_partial_stmt : Prop :=
-  forall t, valid t ->
-    let A := image_pos t in let D := image_axis t in let k := ratio_of t in
-    (forall x y, norm (vsub (A x) (A y)) = Rabs k * norm (vsub x y)) /\
-    (forall l, polyline_length (map A l) = Rabs k * polyline_length l) /\
-    (forall p1 p2 c, arc_from_origin (A p1) (A p2) (A c) = A (arc_from_origin p1 p2 c)) /\
-    (forall p1 p2 t2 a, arc_from_theta (A p1) (A p2) t2 (D a) = A (arc_from_theta p1 p2 t2 a)).
-Theorem C09_output_partial : C09_output_partial_stmt.
-Proof. exact M09_output_partial. Qed.
+    (forall ps pb pe, noncollinear ps pb pe ->
+       arc_length_3point (A ps) (A pb) (A pe) = Rabs k * arc_length_3point ps pb pe).
+Theorem C09_output : C09_output_stmt.
+Proof. exact output_full. Qed.
 
 (** reversal of a side edge by Operation.invert keeps the arc (axis perpendicular to the chord) and maps
     a reversed point list to the reversed image *)
@@ -139,9 +157,13 @@ Proof. exact M09_reverse. Qed.
 Definition C09_copy_independent_stmt : Prop :=
   forall t k (orig copy : node) h,
     disjointb (map snd (leaves orig)) (map snd (leaves copy)) = true ->
-    forall i, In i (map snd (leaves orig)) -> run_visits t (visits k copy) h i = h i.
+    forall i, In i (map snd (leaves orig)) ->
+      run_visits t (visits k copy) h i = h i /\ run_visits t (method_visits k copy) h i = h i.
 Theorem C09_copy_independent : C09_copy_independent_stmt.
-Proof. exact M09_copy_independent. Qed.
+Proof.
+  intros t k orig copy h Hd i Hi.
+  split; [exact (M09_copy_independent t k orig copy h Hd i Hi) | exact (copy_independent_method t k orig copy h Hd i Hi)].
+Qed.
 
 (** ** 8. finite facts about the working tree (tables regenerated in this run) *)
 Ltac finite_forall tab chk :=
@@ -205,8 +227,10 @@ Print Assumptions C09_commute.
 Print Assumptions C09_commute_needs_alias_free.
 Print Assumptions C09_traversal.
 Print Assumptions C09_list_on_angle_refuted.
+Print Assumptions C09_method_commute.
+Print Assumptions C09_list_commute.
 Print Assumptions C09_compose.
-Print Assumptions C09_output_partial.
+Print Assumptions C09_output.
 Print Assumptions C09_reverse.
 Print Assumptions C09_copy_independent.
 Print Assumptions C09_alias_free_classes.
